@@ -163,10 +163,38 @@ Complete(vals, t) ==
   ELSE LET c == {m \in vals : StrPrefix(Tok[t].s, Tok[m].s)} IN
        IF Cardinality(c) = 1 THEN CHOOSE m \in c : TRUE ELSE "none"
 
+\* ---- legacy Trait(...) handlers (trait_handlers.py): TraitCoerceType, TraitCastType, TraitInstance, TraitFunction,
+\* TraitEnum, TraitMap and their TraitCompound.  cfg.k names the Python type of the coercing / casting handlers.
+\* isinstance(v, k) on the value pool (np.float64 is a float subclass; np.int64, np.float32, np.bool_ are not)
+SubOf(k) == CASE k = "float" -> {"float", "floatsub", "npfloat64"} [] k = "int" -> {"int", "bool", "intsub"}
+              [] k = "str" -> {"str", "strsub"} [] k = "complex" -> {"complex"} [] k = "bool" -> {"bool"}
+              [] k = "list" -> {"list"} [] k = "tuple" -> {"tuple"} [] OTHER -> {}
+\* the coercible types of the documented table (float <- int; complex <- float, int): the entries after the None
+\* separator of the (coerce, type1, None, ctype1, ...) tuple
+CoerceFrom(k) == CASE k = "float" -> SubOf("int") [] k = "complex" -> SubOf("float") \cup SubOf("int") [] OTHER -> {}
+\* complex(v) as the builtin behaves on the pool
+CastComplex(t) ==
+  CASE ComplexKind(t) = "ok" -> Store(ComplexOf(t))
+    [] ComplexKind(t) = "overflow" -> Err("OverflowError")
+    [] ComplexKind(t) = "raise" -> Err("ZeroDivisionError")
+    [] Ty(t) \in {"str", "strsub"} -> IF StrInt(Tok[t].s) # NoNum THEN Store(V("complex", StrInt(Tok[t].s), ""))
+                                      ELSE IF Tok[t].s = "2.5" THEN Store(V("complex", 5, "")) ELSE Err("ValueError")
+    [] OTHER -> Err("TypeError")
+CastTo(k, t) == CASE k = "float" -> CastFloat(t) [] k = "int" -> CastInt(t) [] k = "str" -> CastStr(t)
+                  [] k = "bool" -> CastBool(t) [] k = "complex" -> CastComplex(t)
+\* type1(value) of a coercion: any exception of the conversion is passed through by both paths
+CoerceConv(r) == IF r.tag = "store" THEN r ELSE Prop(r.e)
+\* the validator function given to Trait(default, function) in the harness: a non-negative exact int as it is, the
+\* text "5" converted to the int 5, TraitError otherwise (a validator function must raise TraitError: its contract)
+FuncV(t) == IF Ty(t) = "int" /\ Tok[t].num >= 0 THEN Same(t)
+            ELSE IF Ty(t) = "str" /\ Tok[t].s = "5" THEN Store(V("int", 10, "")) ELSE Reject
+IsUnion(c) == c.t \in {"Union", "TUnion"}
+
 \* ---- the Python-level validate methods --------------------------------------------------------
 InRangePy(cfg, x) ==          \* BaseRange.float_validate / int_validate: written with low <= value
   /\ (cfg.lo = None9 \/ (cfg.xl /\ FLt(cfg.lo, x)) \/ (~cfg.xl /\ FLe(cfg.lo, x)))
   /\ (cfg.hi = None9 \/ (cfg.xh /\ FLt(x, cfg.hi)) \/ (~cfg.xh /\ FLe(x, cfg.hi)))
+FastCast(r) == IF r.tag = "store" THEN r ELSE Reject           \* every conversion failure -> TraitError
 PyCast(r) == IF r.tag = "store" THEN r ELSE IF r.e \in {"ValueError", "TypeError"} THEN Reject ELSE Prop(r.e)
 EqTok(a, b) ==   \* Python == between two values of the pool (used by Enum membership)
   IF Tok[a].num # NoNum /\ Tok[b].num # NoNum /\ Ty(a) \notin {"idxobj", "fltobj"} /\ Ty(b) \notin {"idxobj", "fltobj"}
@@ -197,6 +225,17 @@ Py(cfg, t) ==
                            ELSE IF r.w.num # Huge /\ InRangePy(cfg, r.w.num) THEN r
                            ELSE IF r.w.num = Huge /\ cfg.hi = None9 THEN r ELSE Reject
     [] cfg.t = "Enum" -> IF \E m \in cfg.vals : EqTok(t, m) THEN Same(t) ELSE Reject
+    \* TraitCoerceType.validate: an instance of the type as it is, an instance of a coercible type converted
+    [] cfg.t = "TCoerce" -> IF Ty(t) \in SubOf(cfg.k) THEN Same(t)
+                            ELSE IF Ty(t) \in CoerceFrom(cfg.k) THEN CoerceConv(CastTo(cfg.k, t)) ELSE Reject
+    \* TraitCastType.validate: the exact type as it is, else type(value) with every exception -> TraitError
+    [] cfg.t = "TCast" -> IF Ty(t) = cfg.k THEN Same(t) ELSE FastCast(CastTo(cfg.k, t))
+    [] cfg.t = "CComplex" -> PyCast(CastComplex(t))
+    [] cfg.t = "TInst" -> IF (cfg.an /\ Ty(t) = "none") \/ IsInstanceOf(t, cfg.k) THEN Same(t) ELSE Reject
+    \* TraitFunction.validate: the function's TraitError becomes the trait's TraitError
+    [] cfg.t = "TFunc" -> FuncV(t)
+    [] cfg.t = "TEnum" -> IF \E m \in cfg.vals : EqTok(t, m) THEN Same(t) ELSE Reject
+    [] cfg.t = "TMap" -> IF \E m \in cfg.vals : EqTok(t, m) /\ Ty(t) \notin {"list"} THEN Same(t) ELSE Reject
     [] cfg.t = "Instance" -> IF (cfg.an /\ Ty(t) = "none") \/ IsInstanceOf(t, cfg.k) THEN Same(t) ELSE Reject
     [] cfg.t = "Type" -> IF (cfg.an /\ Ty(t) = "none") \/ IsSubclassOf(t, cfg.k) THEN Same(t) ELSE Reject
     \* String: strx, then length and regex; the result is an exact str (num carries its length)
@@ -231,7 +270,7 @@ Py(cfg, t) ==
                       IF cfg.fast /\ rs[k].tag = "prop" THEN rs[k] ELSE Reject
     \* Either (TraitCompound.validate): the Python validate methods of the alternatives, in order;
     \* Union.validate: the alternatives as CTraits (Assign), in order; the first that does not raise TraitError decides
-    [] cfg.t = "Union" ->
+    [] IsUnion(cfg) ->
          LET rs == [k \in 1..Len(cfg.ms) |-> IF cfg.fast THEN Py(cfg.ms[k], t) ELSE Assign(cfg.ms[k], t)]
              ok == {k \in 1..Len(cfg.ms) : rs[k].tag # "reject"}
          IN IF ok = {} THEN Reject ELSE rs[CHOOSE k \in ok : \A j \in ok : k <= j]
@@ -243,7 +282,6 @@ Py(cfg, t) ==
 InRangeC(cfg, x) ==
   /\ (cfg.lo = None9 \/ (IF cfg.xl THEN FLt(cfg.lo, x) ELSE FLe(cfg.lo, x)))
   /\ (cfg.hi = None9 \/ (IF cfg.xh THEN FLt(x, cfg.hi) ELSE FLe(x, cfg.hi)))
-FastCast(r) == IF r.tag = "store" THEN r ELSE Reject           \* every conversion failure -> TraitError
 HasFast(cfg) == cfg.fast
 Fast(cfg, t) ==
   CASE cfg.t = "Any" -> Same(t)
@@ -263,6 +301,18 @@ Fast(cfg, t) ==
                            IF r.tag # "store" THEN r ELSE IF InRangeC(cfg, r.w.num) THEN r ELSE Reject
     [] cfg.t = "RangeI" -> Py(cfg, t)                          \* integer ranges have no fast validator
     [] cfg.t = "Enum" -> IF \E m \in cfg.vals : EqTok(t, m) THEN Same(t) ELSE Reject         \* PySequence_Contains
+    \* validate_trait_coerce_type on (coerce, type1, None, ctype1, ...): PyObject_TypeCheck against type1 -> as it is;
+    \* against a type after the None separator -> type1(value), whose exception is passed through
+    [] cfg.t = "TCoerce" -> IF Ty(t) \in SubOf(cfg.k) THEN Same(t)
+                            ELSE IF Ty(t) \in CoerceFrom(cfg.k) THEN CoerceConv(CastTo(cfg.k, t)) ELSE Reject
+    \* validate_trait_cast_type: Py_TYPE(value) == type -> as it is; else type(value), failure -> TraitError
+    [] cfg.t = "TCast" -> IF Ty(t) = cfg.k THEN Same(t) ELSE FastCast(CastTo(cfg.k, t))
+    [] cfg.t = "CComplex" -> IF Ty(t) = "complex" THEN Same(t) ELSE FastCast(CastComplex(t))
+    [] cfg.t = "TInst" -> IF (cfg.an /\ Ty(t) = "none") \/ IsInstanceOf(t, cfg.k) THEN Same(t) ELSE Reject
+    \* validate_trait_function: the function's result, or the trait's TraitError when it raises
+    [] cfg.t = "TFunc" -> FuncV(t)
+    [] cfg.t = "TEnum" -> IF \E m \in cfg.vals : EqTok(t, m) THEN Same(t) ELSE Reject
+    [] cfg.t = "TMap" -> IF \E m \in cfg.vals : EqTok(t, m) /\ Ty(t) \notin {"list"} THEN Same(t) ELSE Reject
     [] cfg.t = "Instance" -> IF (cfg.an /\ Ty(t) = "none") \/ IsInstanceOf(t, cfg.k) THEN Same(t) ELSE Reject
     [] cfg.t = "Type" -> IF (cfg.an /\ Ty(t) = "none") \/ IsSubclassOf(t, cfg.k) THEN Same(t) ELSE Reject
     [] cfg.t = "Callable" -> IF (Ty(t) = "none" /\ cfg.an) \/ IsCallable(t) THEN Same(t) ELSE Reject
@@ -281,7 +331,7 @@ Fast(cfg, t) ==
                       IF rs[k].tag = "prop" THEN rs[k] ELSE Reject
     \* validate_trait_complex: the table of fast validators in order (a nested compound's table is spliced
     \* in), Python-only alternatives through slow_validate; TraitError of an alternative is cleared
-    [] cfg.t = "Union" ->
+    [] IsUnion(cfg) ->
          LET rs == [k \in 1..Len(cfg.ms) |-> Assign(cfg.ms[k], t)]
              ok == {k \in 1..Len(cfg.ms) : rs[k].tag # "reject"}
          IN IF ok = {} THEN Reject ELSE rs[CHOOSE k \in ok : \A j \in ok : k <= j]
@@ -301,7 +351,7 @@ Members(cfg, t, mode) ==
   LET r == Eval(mode, cfg, t) IN
   IF r.tag # "store" \/ r.w.ty # "tuple" THEN <<>>
   ELSE IF (cfg.t = "Tuple" /\ cfg.ms # <<>>) \/ cfg.t = "VTuple" THEN [k \in 1..Len(Items(t)) |-> Assign(cfg.ms[k], Items(t)[k]).w]
-  ELSE IF cfg.t = "Union" THEN Members(cfg.ms[FirstOK(cfg, t, mode)], t, AltMode(mode, cfg))
+  ELSE IF IsUnion(cfg) THEN Members(cfg.ms[FirstOK(cfg, t, mode)], t, AltMode(mode, cfg))
   ELSE [k \in 1..Len(Items(t)) |-> Tok[Items(t)[k]]]
 
 \* ---- the declared domain (C01), independent of both transcriptions ------------------------------
@@ -337,7 +387,16 @@ InDomain(cfg, w, members) ==       \* members: stored member values when w is a 
     [] cfg.t \in {"Map", "PrefixMap", "PrefixList"} -> \E m \in cfg.vals : w = Tok[m] \/ (w.ty = "strsub" /\ w.s = Tok[m].s)
     [] cfg.t = "VTuple" -> w.ty = "tuple" /\ Len(members) = 2 /\ InDomain(cfg.ms[1], members[1], <<>>)
                            /\ InDomain(cfg.ms[2], members[2], <<>>) /\ FLt(members[1].num, members[2].num)
-    [] cfg.t = "Union" -> \E k \in 1..Len(cfg.ms) : InDomain(cfg.ms[k], w, members)
+    [] cfg.t = "TCoerce" -> w.ty \in SubOf(cfg.k)                       \* an instance of the declared Python type
+    [] cfg.t = "TCast" -> w.ty = cfg.k
+    [] cfg.t = "CComplex" -> w.ty = "complex"
+    [] cfg.t = "TInst" -> (cfg.an /\ w.ty = "none") \/ (w.ty = "inst" /\ (w.s = cfg.k \/ (cfg.k = "A" /\ w.s = "B")))
+    [] cfg.t = "TFunc" -> w.ty = "int" /\ w.num >= 0
+    [] cfg.t = "TEnum" -> \E m \in cfg.vals : w = Tok[m] \/ (w.num # NoNum /\ Tok[m].num # NoNum /\ w.num # NaN
+                                                            /\ Ord(w.num) = Ord(Tok[m].num))
+                                               \/ (w.ty \in {"str", "strsub"} /\ Tok[m].ty \in {"str", "strsub"} /\ w.s = Tok[m].s)
+    [] cfg.t = "TMap" -> \E m \in cfg.vals : w = Tok[m] \/ (w.ty = "strsub" /\ w.s = Tok[m].s)
+    [] IsUnion(cfg) -> \E k \in 1..Len(cfg.ms) : InDomain(cfg.ms[k], w, members)
 \* the mapped shadow value of a stored key (Map / PrefixMap): sh is the value readable as <name>_
-ShadowOK(cfg, w, sh) == cfg.t \notin {"Map", "PrefixMap"} \/ \E m \in cfg.vals : w.s = Tok[m].s /\ sh = Tok[MapVal(m)]
+ShadowOK(cfg, w, sh) == cfg.t \notin {"Map", "PrefixMap", "TMap"} \/ \E m \in cfg.vals : w.s = Tok[m].s /\ sh = Tok[MapVal(m)]
 =============================================================================
